@@ -221,6 +221,19 @@ func cmdCheck(args []string) int {
 	}
 	sort.Strings(fnList)
 
+	// thorough tier: replay the seeded and the behaviour-preserving changes of this
+	// property through the overlay (evidence about the checker; not part of the verdict)
+	var selftest map[string]any
+	if *tier == "thorough" && os.Getenv("VERIF_NO_SELFTEST") == "" {
+		selftest = checkerSelftestFor(spec, *repo, home)
+		if m, _ := selftest["seeded_changes_missed"].([]string); len(m) > 0 {
+			fmt.Printf("note      checker selftest: seeded change(s) %v are not reported on this tree\n", m)
+		}
+		if a, _ := selftest["benign_refactorings_alarmed"].([]string); len(a) > 0 {
+			fmt.Printf("note      checker selftest: behaviour-preserving change(s) %v raise an alarm on this tree\n", a)
+		}
+	}
+
 	ev := Evidence{
 		PropertyID: spec.ID, Tier: *tier, Seed: seed, Level: "other",
 		Coverage: map[string]any{
@@ -251,6 +264,10 @@ func cmdCheck(args []string) int {
 		}, spec.Assumptions...),
 		WallS:      time.Since(t0).Seconds(),
 		Violations: nViol,
+	}
+	if selftest != nil {
+		ev.Coverage["checker_selftest"] = selftest
+		ev.WallS = time.Since(t0).Seconds()
 	}
 	evPath := filepath.Join(home, "evidence", spec.ID+".json")
 	if err := writeJSON(evPath, ev); err != nil {
